@@ -1,3 +1,21 @@
 From BEI Require Export Check.C08c.
+From BEI Require Check.C07c.
+Open Scope Z_scope.
+(* the suppression starts with a NEW instance: an instance is built exactly when the join / leave / rebuild history
+   requires one (the build rule of the C07 judgement, its clause 2, on the same trace) - a surviving old instance
+   would not be suppressed at all *)
+Fixpoint build_rule (sc : scenario) (before : out) (steps : list step) (outs : list out) : list (Z * bool) :=
+  match steps, outs with
+  | st :: steps', o :: outs' =>
+      map (fun x => (12, snd x)) (filter (fun x => Z.eqb (fst x) 2) (BEI.Check.C07c.judge_step sc st before o)) ++ build_rule sc o steps' outs'
+  | _, _ => []
+  end.
+Definition ok8w (p : scenario * trace_t) : Z :=
+  let r := ok8 p in
+  if negb (Z.eqb r 0) then r
+  else match p with
+       | (sc, trace outs) => first_fail (build_rule sc (BEI.Check.C07c.empty_out sc) (s_steps sc) outs)
+       | _ => 0
+       end.
 Definition bad_agree := bad agree_full.
-Definition bad_ok := badc ok8.
+Definition bad_ok := badc ok8w.
